@@ -54,20 +54,49 @@ Definition ex_pub (kl : Z) : bytes :=
 Lemma ex_ybytes_wfb : wfb ex_ybytes = true. Proof. vm_compute. reflexivity. Qed.
 Lemma ex_y_nonneg : 0 <= ex_y. Proof. unfold ex_y. rewrite OS2IP_be_val. apply be_val_range, ex_ybytes_wfb. Qed.
 
+(* the group's DH parameters (msKds-SecretAgreementParam) carried by both envelopes *)
+Definition ex_sp (kl : Z) : bytes := concat (ffp_field_list {| ffp_key_length := kl; ffp_field_order := 65521; ffp_generator := 17 |}).
+Definition ex_es_dh (kl priv : Z) : envelope :=
+  {| gke_version := 1; gke_flags := 0; gke_l0 := 361; gke_l1 := 31; gke_l2 := 31; gke_rkid := ex_rkid;
+     gke_kdf_alg := STR_KDF_ALG; gke_kdf_params := ex_kdf_params; gke_secret_alg := STR_DH; gke_secret_params := ex_sp kl;
+     gke_priv_len := priv; gke_pub_len := 16; gke_domain := [100]; gke_forest := []; gke_l1_key := ex_l1key; gke_l2_key := ex_seed |}.
+Definition ex_ep_dh (kl priv : Z) (pub : bytes) : envelope :=
+  {| gke_version := 1; gke_flags := 1; gke_l0 := 361; gke_l1 := 31; gke_l2 := 31; gke_rkid := ex_rkid;
+     gke_kdf_alg := STR_KDF_ALG; gke_kdf_params := ex_kdf_params; gke_secret_alg := STR_DH; gke_secret_params := ex_sp kl;
+     gke_priv_len := priv; gke_pub_len := 16; gke_domain := [100]; gke_forest := []; gke_l1_key := []; gke_l2_key := pub |}.
+Lemma ex_conforming_dh kl priv : conforming (kdfK sym SHA512 ex_rkid 361) ex_top (env_of (ex_es_dh kl priv)).
+Proof. unfold conforming. cbn [env_of ex_es_dh e_l1 e_l2 e_l1key e_l2key gke_l1 gke_l2 gke_l1_key gke_l2_key]. repeat split; try lia. Qed.
+Lemma ex_covers_dh kl priv : covers (env_of (ex_es_dh kl priv)) 31 31.
+Proof. unfold covers. cbn. lia. Qed.
+Lemma ex_sp_params kl : kl = 2 \/ kl = 5 -> dh_group_params (ex_sp kl) kl 65521 17.
+Proof. intros [-> | ->]; vm_compute; reflexivity. Qed.
+(* both public values of the example are valid group elements: the group key's 17^y and the ephemeral 17^x, x = 0x0909 *)
+Example ex_pub_valid : dh_pub_valid 65521 (dh_public 65521 17 ex_y) /\ dh_pub_valid 65521 (dh_public 65521 17 (OS2IP (ex_rnd 2))).
+Proof.
+  split; apply dh_pub_validb_spec; unfold dh_public.
+  - rewrite <- modpow_spec by (pose proof ex_y_nonneg; lia). vm_compute. reflexivity.
+  - rewrite <- modpow_spec by (vm_compute; (reflexivity || discriminate)). vm_compute. reflexivity.
+Qed.
+(* and the predicate does exclude the degenerate values *)
+Example ex_pub_degenerate : ~ dh_pub_valid 65521 0 /\ ~ dh_pub_valid 65521 1 /\ ~ dh_pub_valid 65521 65520.
+Proof. unfold dh_pub_valid. lia. Qed.
+
 Example agree_dh_example kl : (kl = 2 \/ kl = 5) -> exists kid kek,
-  new_kek sym ex_rnd (ex_ep STR_DH 16 (ex_pub kl)) = Ok (kek, kid) /\ get_kek sym (ex_es STR_DH 16) kid = Ok kek.
+  new_kek sym ex_rnd (ex_ep_dh kl 16 (ex_pub kl)) = Ok (kek, kid) /\ get_kek sym (ex_es_dh kl 16) kid = Ok kek.
 Proof.
   intros Hkl.
   assert (Hf : fitsb kl 65521 = true /\ fitsb kl 17 = true /\ u32b kl = true) by (destruct Hkl as [-> | ->]; repeat split).
   destruct Hf as (Hf1 & Hf2 & Hf3).
-  assert (Hl2 : gke_l2_key (ex_ep STR_DH 16 (ex_pub kl)) =
+  assert (Hl2 : gke_l2_key (ex_ep_dh kl 16 (ex_pub kl)) =
                 concat (ffk_field_list {| ffk_key_length := kl; ffk_field_order := 65521; ffk_generator := 17;
                                           ffk_public_key := dh_public 65521 17 ex_y |})).
-  { cbn [ex_ep gke_l2_key]. unfold ex_pub, dh_public. rewrite modpow_spec by (pose proof ex_y_nonneg; lia). reflexivity. }
-  pose proof (agree_dh sym SHA512 ex_top (ex_es STR_DH 16) (ex_ep STR_DH 16 (ex_pub kl)) ex_rnd ex_seed kl 65521 17
+  { cbn [ex_ep_dh gke_l2_key]. unfold ex_pub, dh_public. rewrite modpow_spec by (pose proof ex_y_nonneg; lia). reflexivity. }
+  destruct ex_pub_valid as [Vy Vx].
+  pose proof (agree_dh sym SHA512 ex_top (ex_es_dh kl 16) (ex_ep_dh kl 16 (ex_pub kl)) ex_rnd ex_seed kl 65521 17
                 eq_refl eq_refl eq_refl eq_refl eq_refl eq_refl eq_refl eq_refl eq_refl eq_refl
-                ltac:(cbn [ex_ep gke_l1]; lia) ltac:(cbn [ex_ep gke_l2]; lia)
-                (ex_conforming STR_DH 16) (ex_covers STR_DH 16) ex_seed_ok ltac:(lia) Hf3 Hf1 Hf2 ex_ybytes_wfb eq_refl Hl2) as H.
+                ltac:(cbn [ex_ep_dh gke_l1]; lia) ltac:(cbn [ex_ep_dh gke_l2]; lia)
+                (ex_conforming_dh kl 16) (ex_covers_dh kl 16) ex_seed_ok ltac:(lia) Hf3 Hf1 Hf2
+                (ex_sp_params kl Hkl) (ex_sp_params kl Hkl) ex_ybytes_wfb eq_refl Vy Vx Hl2) as H.
   destruct H as (kid & Hn & _ & Hg & Heq).
   exists kid. eexists. split; [exact Hn|].
   rewrite Hg. apply f_equal. exact Heq.
